@@ -1128,8 +1128,8 @@ def _simplify_function_min(call: HplFunctionCall) -> HplExpression:
 
 def _obviously_different(a: HplExpression, b: HplExpression) -> bool:
     # assume arguments have been simplified
-    if _obvious_negatives(a, b):
-        return True
+    if _obvious_negatives(a, b, logic_only=True):
+        return True  # p and (not p); but x and (-x) are equal when x is 0
     if isinstance(a, HplBinaryOperator):
         op: BinaryOperatorDefinition = a.operator
         if op.is_plus or op.is_minus:
@@ -1139,13 +1139,13 @@ def _obviously_different(a: HplExpression, b: HplExpression) -> bool:
     return False
 
 
-def _obvious_negatives(a: HplExpression, b: HplExpression) -> bool:
+def _obvious_negatives(a: HplExpression, b: HplExpression, logic_only: bool = False) -> bool:
     # assume arguments have been simplified
     if isinstance(a, HplUnaryOperator):
-        if a.operator.is_not or a.operator.is_minus:
+        if a.operator.is_not or (a.operator.is_minus and not logic_only):
             return a.operand == b
     if isinstance(b, HplUnaryOperator):
-        if b.operator.is_not or b.operator.is_minus:
+        if b.operator.is_not or (b.operator.is_minus and not logic_only):
             return b.operand == a
     return False
 
